@@ -95,7 +95,7 @@ def case_strategy(draw, tier="quick"):
             steps.append({"op": "att", "name": "a%d" % len(steps), "n": draw(st.integers(1, 6)), "seed": draw(st.integers(0, 99))})
             continue
         if kind == "redef":
-            steps.append({"op": "redef", "grow": draw(st.sampled_from([0, 300, 5000]))})
+            steps.append({"op": "redef", "grow": draw(st.sampled_from([0, 300, 5000])), "addrec": G.chance(draw, 45)})
             continue
         if kind == "reopen":
             steps.append({"op": "reopen"})
@@ -264,6 +264,10 @@ def build(case, cfg):
             name = "n%d" % si
             p.op("def_var", step=True, f="f0", name=hx(name), xt=M.NC_INT, dims=[2], ndims=1)
             fm.add_var(name, M.NC_INT, [2])
+            if stp.get("addrec"):
+                # a new record variable changes the record size: every existing record moves
+                p.op("def_var", step=True, f="f0", name=hx("r%d" % si), xt=M.NC_SHORT, dims=[0, 2], ndims=2)
+                fm.add_var("r%d" % si, M.NC_SHORT, [0, 2])
             p.op("enddef", step=True, f="f0")
             continue
         if op == "reopen":
